@@ -150,7 +150,7 @@ func (e *Encoder) writeObject(data interface{}) (int, error) {
 	if !ok {
 		length, _ = e.writeClsDef(typ, clsName)
 	}
-	if byte(length) <= _objectTagMaxLen {
+	if length <= int(_objectTagMaxLen) {
 		// NOTE: when length=2, length+_objectLenTagMin='b', the same as the binary chunk start with,
 		// which will be special processed in decoder
 		e.writeBT(byte(length) + _objectLenTagMin)
